@@ -56,6 +56,10 @@ claim("C17", "ownership / who-may-touch analysis of Rc-counted data across the p
       "The sharing is ruled out structurally: the unsafe impl Send/Sync set and the Rc-bearing fields they expose are the reviewed ones; every unit test's typed assertion is taken unconditionally before an indexed into_par_iter().map().collect(); worker-side functions clone/drop no AST-shared type and no whole test except the reviewed UnitTest copy; deep_clone rebuilds every Rc-bearing child and swallows only Rc-free variants; the constant cache stores no Rc and hands out deep copies on every path; no static holds an Rc.",
       "no schedule is explored; aliasing that the type-level classification cannot see (an Rc<Constant> shared through a path other than the cache or generator state) is not decided", "DESIGN.md §3 C17", "shape+flow")
 
+claim("C20", "panic-site audit over the resolved MIR call graph from every untrusted-input entry point, with a reviewed per-function table; fallible-action lint over the peg grammar",
+      "From the flat/CBOR/hex decoders and all Decode impls, the UPLC text parser (generated code included), the Aiken parser and formatter, the blueprint's serde Deserialize/Visitor impls, Parameter::validate / apply / lookup, the configuration loader and the transaction decoding of tx simulation, every unwrap/expect, panic!-family macro, index/slice, arithmetic assert and panicking API reachable in the call graph (about 145 sites) is enumerated and must be in a reviewed per-function table; three demonstrated input-driven panics are listed as known findings; UPLC grammar actions are fallible.",
+      "loops, stack depth on deeply nested input and panics inside pallas / minicbor / serde_json / chumsky / peg runtime are not decided; two reviewed tx-decoding sites are input-driven but undemonstrated (DESIGN C20)", "DESIGN.md §3 C20", "shape+flow")
+
 
 def main():
     props = [json.loads(l) for l in open(os.path.join(HERE, "properties.jsonl"))]
